@@ -462,7 +462,11 @@ func (m *Model) onAtomic(ev Event) {
 			want = otter.CauseInvalidation
 		}
 		if cause != want {
-			m.fail("event", "%s: cause should be %s (expired in model: %v)", ev, want, exp)
+			class := "event"
+			if exp {
+				class = "expcause" // an expired value left without its Expiration event (also a C13 matter)
+			}
+			m.fail(class, "%s: cause should be %s (expired in model: %v)", ev, want, exp)
 			return
 		}
 		delete(m.phys, k)
